@@ -27,6 +27,7 @@
 #include <pthread.h>
 #include <sched.h>
 #include <stdarg.h>
+#include <stdint.h>
 #include <stdio.h>
 #include <stdlib.h>
 #include <string.h>
@@ -91,6 +92,16 @@ static void tr(const char *fmt, ...) {
     if (n > 0) (void)!write(g_trace_fd, buf, (size_t) n);
 }
 
+static int g_jitter = 0;                 /* SCHED_JITTER=<seed>: random pauses of 0..0.8 ms around the file operations of logical threads */
+static __thread uint64_t my_rng = 0;
+static void jitter(void) {
+    if (!g_jitter || my_id < 0) return;
+    if (!my_rng) my_rng = 0x9E3779B97F4A7C15ULL * (uint64_t)(g_jitter * 131 + my_id + 1);
+    my_rng ^= my_rng << 13; my_rng ^= my_rng >> 7; my_rng ^= my_rng << 17;
+    struct timespec ts = { 0, (long)(my_rng % 800) * 1000 };
+    if ((my_rng >> 20) % 3 != 0) nanosleep(&ts, NULL);
+}
+
 static void nap(long us) { struct timespec ts = { us / 1000000, (us % 1000000) * 1000 }; nanosleep(&ts, NULL); }
 
 static const char *site_of(void *ra) {
@@ -103,6 +114,7 @@ static const char *site_of(void *ra) {
 void sched_setup(int mode, int trace_fd, const char *schedule, int park_k, int grace_ms) {
     resolve();
     g_mode = mode; g_trace_fd = trace_fd; g_park_k = park_k; if (grace_ms > 0) g_grace_ms = grace_ms;
+    g_jitter = getenv("SCHED_JITTER") ? atoi(getenv("SCHED_JITTER")) : 0;
     g_len = 0; g_pos = 0; g_free_run = 0;
     if (schedule && schedule[0] && strcmp(schedule, "-")) {
         const char *p = schedule;
@@ -280,3 +292,28 @@ static int record_exec(const char *api, const char *path, char *const argv[]) {
 }
 int execve(const char *path, char *const argv[], char *const envp[]) { (void) envp; return record_exec("execve", path, argv); }
 int execv(const char *path, char *const argv[]) { return record_exec("execv", path, argv); }
+
+/* ---- schedule perturbation for free-running stress (SCHED_JITTER): pauses around the library's file operations -------------- */
+int open(const char *path, int flags, ...) {
+    static int (*real_open)(const char *, int, ...);
+    if (!real_open) real_open = (int (*)(const char *, int, ...)) dlsym(RTLD_NEXT, "open");
+    mode_t mode = 0;
+    if (flags & O_CREAT) { va_list ap; va_start(ap, flags); mode = (mode_t) va_arg(ap, int); va_end(ap); }
+    jitter();
+    int r = real_open(path, flags, mode);
+    int e = errno; jitter(); errno = e;
+    return r;
+}
+int fclose(FILE *f) {
+    static int (*real_fclose)(FILE *);
+    if (!real_fclose) real_fclose = (int (*)(FILE *)) dlsym(RTLD_NEXT, "fclose");
+    int r = real_fclose(f);
+    int e = errno; jitter(); errno = e;
+    return r;
+}
+int close(int fd) {
+    static int (*real_close)(int);
+    if (!real_close) real_close = (int (*)(int)) dlsym(RTLD_NEXT, "close");
+    jitter();
+    return real_close(fd);
+}
